@@ -60,6 +60,24 @@ static void blk_certs(void) {
 		vh_sample("{\"block\":\"certs\",\"serial_len\":%zu,\"topbit\":%d,\"window\":%d,\"exts\":%d,\"signer_id\":%d,\"certlen\":%zu}", SL[si], hb, tw, ex, sid, cl);
 	}
 }
+/* issuerUniqueID / subjectUniqueID: absent, one of them, both with different and with equal lengths, with and without extensions: issued
+   certificate hands both back exactly (value and length), and still verifies */
+static void blk_unique_ids(void) {
+	if (!vh_block_begin("unique-ids")) return; static const size_t UL[] = { 0, 1, 8, 12, 32 }; uint8_t iu[32], su[32]; for (int i = 0; i < 32; i++) { iu[i] = (uint8_t)(0x31 + i); su[i] = (uint8_t)(0xc1 - i); }
+	for (int a = 0; a < 5; a++) for (int b = 0; b < 5; b++) for (int ex = 0; ex < 2; ex++) { if (!vh_next()) continue; uint8_t exts[128]; size_t el = 0; if (ex) x509_exts_add_key_usage(exts, &el, sizeof exts, X509_critical, X509_KU_DIGITAL_SIGNATURE);
+		static uint8_t cert[2048]; uint8_t *p = cert; size_t cl = 0; uint8_t serial[3] = { 0x21, (uint8_t)a, (uint8_t)b }; venv_reset(900 + a * 10 + b);
+		int r = x509_cert_sign_to_der(X509_version_v3, serial, 3, OID_sm2sign_with_sm3, NAME_I, NIL, VENV_NOW - 1000, VENV_NOW + 100000, NAME_S, NSL, &CK[0], UL[a] ? iu : NULL, UL[a], UL[b] ? su : NULL, UL[b], el ? exts : NULL, el, &CK[1], IDS[0].p, IDS[0].n, &p, &cl); size_t kk[3] = { UL[a], UL[b], (size_t)ex }; vh_eval(vh_hash(kk, sizeof kk, 61));
+		if (r != 1) { vh_viol("C15:cert:unique-ids:issue-refused", "\"issuer_uid_len\":%zu,\"subject_uid_len\":%zu,\"ret\":%d", UL[a], UL[b], r); continue; }
+		int ver, alg1, alg2; const uint8_t *sn, *iss, *sub, *giu = (const uint8_t *)"x", *gsu = (const uint8_t *)"x", *ee, *sig; size_t snl, il, sl2, giul = 777, gsul = 777, eel, sgl; time_t gnb, gna; SM2_KEY pk;
+		r = x509_cert_get_details(cert, cl, &ver, &sn, &snl, &alg1, &iss, &il, &gnb, &gna, &sub, &sl2, &pk, &giu, &giul, &gsu, &gsul, &ee, &eel, &alg2, &sig, &sgl); vh_eval(vh_hash(kk, sizeof kk, 62));
+		if (r != 1) { vh_viol("C15:cert:unique-ids:own-output-does-not-parse", "\"issuer_uid_len\":%zu,\"subject_uid_len\":%zu", UL[a], UL[b]); continue; }
+		if (giul != UL[a] || (UL[a] ? (!giu || memcmp(giu, iu, UL[a])) : giu != NULL)) vh_viol("C15:cert:field-differs:issuerUniqueID", "\"supplied_len\":%zu,\"got_len\":%zu,\"other_len\":%zu,\"exts\":%d", UL[a], giul, UL[b], ex);
+		if (gsul != UL[b] || (UL[b] ? (!gsu || memcmp(gsu, su, UL[b])) : gsu != NULL)) vh_viol("C15:cert:field-differs:subjectUniqueID", "\"supplied_len\":%zu,\"got_len\":%zu,\"other_len\":%zu,\"exts\":%d", UL[b], gsul, UL[a], ex);
+		if (eel != el || (el && memcmp(ee, exts, el))) vh_viol("C15:cert:field-differs:extensions-with-unique-ids", "\"issuer_uid_len\":%zu,\"subject_uid_len\":%zu", UL[a], UL[b]);
+		if (x509_signed_verify(cert, cl, &CK[1], IDS[0].p, IDS[0].n) != 1) vh_viol("C15:cert:unique-ids:does-not-verify", "\"issuer_uid_len\":%zu,\"subject_uid_len\":%zu", UL[a], UL[b]);
+		if (a == 2 && b == 3) bitflips("cert", cert, cl, &CK[1], 0, 1);
+		vh_sample("{\"block\":\"unique-ids\",\"issuer_uid_len\":%zu,\"subject_uid_len\":%zu,\"exts\":%d,\"certlen\":%zu}", UL[a], UL[b], ex, cl); }
+}
 static void blk_reqs(void) {
 	if (!vh_block_begin("reqs")) return;
 	for (int sid = 0; sid < 4; sid++) for (int nm = 0; nm < 3; nm++) { if (!vh_next()) continue; uint8_t subj[256]; size_t sl = 0; x509_name_set(subj, &sl, sizeof subj, "CN", nm ? "Beijing" : NULL, NULL, nm == 2 ? "Org" : NULL, NULL, "req");
@@ -122,5 +140,5 @@ static void blk_names(void) {
 		if (ok && c.n) { ok = 0; why = "extra-rdn"; } if (!ok) { snprintf(key, sizeof key, "C15:names:%s", why); vh_viol(key, "\"kinds\":\"%d%d%d%d%d%d\",\"attribute\":%d,\"name\":\"%s\"", kind[0], kind[1], kind[2], kind[3], kind[4], kind[5], at, vh_hex(nm, nl > 120 ? 120 : nl)); continue; }
 		if ((mask % 7) == 0 || vh_thorough) { static uint8_t cert[2048]; uint8_t *p = cert; size_t cl = 0; uint8_t serial[2] = { 2, (uint8_t)mask }; venv_reset(7000 + mask); r = x509_cert_sign_to_der(X509_version_v3, serial, 2, OID_sm2sign_with_sm3, NAME_I, NIL, VENV_NOW - 1000, VENV_NOW + 100000, nm, nl, &CK[0], NULL, 0, NULL, 0, NULL, 0, &CK[1], SM2_DEFAULT_ID, 16, &p, &cl); const uint8_t *sub; size_t subl; if (r != 1 || x509_cert_get_subject(cert, cl, &sub, &subl) != 1 || subl != nl || memcmp(sub, nm, nl)) { vh_viol("C15:names:subject-not-returned-as-supplied", "\"kinds\":\"%d%d%d%d%d%d\",\"ret\":%d", kind[0], kind[1], kind[2], kind[3], kind[4], kind[5], r); } } }
 }
-static void body(void) { blk_certs(); blk_reqs(); blk_crls(); blk_ext_sizes(); blk_names(); }
+static void body(void) { blk_certs(); blk_unique_ids(); blk_reqs(); blk_crls(); blk_ext_sizes(); blk_names(); }
 int main(int argc, char **argv) { vh_init(argc, argv); if (!freopen("/dev/null", "w", stderr)) {} creds_init(); make_name(NAME_I, &NIL, "Issuer"); x509_name_set(NAME_S, &NSL, sizeof NAME_S, "CN", "Beijing", "Haidian", "PKU", "CS", "Subject"); vh_guarded("C15", body, 120); return vh_finish(); }
